@@ -13,7 +13,13 @@ use std::cmp::Reverse;
 use std::collections::{BTreeMap, BinaryHeap, HashSet};
 use std::net::SocketAddr;
 use std::sync::Arc;
+#[cfg(not(feature = "verif-hooks"))]
 use std::time::{Duration, Instant};
+#[cfg(feature = "verif-hooks")]
+use std::time::Duration;
+
+#[cfg(feature = "verif-hooks")]
+use tokio::time::Instant;
 
 use log::{debug, trace, warn};
 use wincode::{SchemaRead, SchemaWrite};
